@@ -607,6 +607,23 @@ func layerFitShape(g *ssa.Function, isList func(ssa.Value) bool, radius ssa.Valu
 		for i, nm := range []string{"hLayers", "vLayers"} {
 			acc, ok := resolve(hv[i]).(*ssa.Phi)
 			res := extractOf(fc, i)
+			// max(hLayers, vLayers) handed on as one axis: the larger of the two fits is not what
+			// the fit reported for that axis
+			if mc, isCall := resolve(hv[i]).(*ssa.Call); isCall && (builtinName(mc) == "max" || builtinName(mc) == "min") && res != nil {
+				own, foreign := false, false
+				for _, a := range mc.Call.Args {
+					if ap, isP := resolve(a).(*ssa.Phi); isP && ap.Block() == sr.Header {
+						if runningMax(g, sr, ap, res) {
+							own = true
+						} else if o := extractOf(fc, 1-i); o != nil && runningMax(g, sr, ap, o) {
+							foreign = true
+						}
+					}
+				}
+				if own && foreign {
+					return false, nm + " is not the running maximum of the fitted " + nm + " over the line voxels: it is " + builtinName(mc) + "() of the maxima of both axes"
+				}
+			}
 			if ph, isPhi := resolve(hv[i]).(*ssa.Phi); isPhi && res != nil && ph.Block() != sr.Header {
 				// a value merged after the loop: the running maximum on some paths, something else on others
 				hasMax, other := false, ""
@@ -882,6 +899,8 @@ func rulePointFields(w *World, r *Report) {
 					r.add("FIELDGUARD", k2, w.Pos(st.Pos()), Discharged, "a parameter is stored unchanged")
 				case isSetter && isArithOn(resolve(st.Val), g.Params[len(g.Params)-1]):
 					r.add("FIELDGUARD", k2, w.Pos(st.Pos()), Violated, "the stored "+it.name+" is computed from the setter's parameter instead of being the parameter itself ("+describeValue(st.Val)+")")
+				case isSetter && changedThroughHelper(w, resolve(st.Val), g.Params[len(g.Params)-1]) != "":
+					r.add("FIELDGUARD", k2, w.Pos(st.Pos()), Violated, "the stored "+it.name+" is not the setter's parameter itself: "+changedThroughHelper(w, resolve(st.Val), g.Params[len(g.Params)-1]))
 				default:
 					r.add("FIELDGUARD", k2, w.Pos(st.Pos()), Undecided, "the stored "+it.name+" is not recognisably a parameter of "+w.FuncName(g)+" ("+describeValue(st.Val)+")")
 				}
@@ -1711,6 +1730,79 @@ func isArithOn(v ssa.Value, p ssa.Value) bool {
 		if g := calleeOf(x); g != nil && pkgOf(g) != nil && pkgOf(g).Path() == "math" {
 			for _, a := range x.Call.Args {
 				if resolve(a) == p {
+					return true
+				}
+			}
+		}
+	}
+	return false
+}
+
+// changedThroughHelper: positive evidence that v is not the parameter p itself:
+// a phi that is p on some paths and a constant on others (a normalisation), or
+// the result of a module helper applied to p that returns arithmetic on its
+// argument (a truncation helper shared with another setter).
+func changedThroughHelper(w *World, v ssa.Value, p ssa.Value) string {
+	switch x := v.(type) {
+	case *ssa.Phi:
+		hasP, konst := false, ""
+		for _, e := range x.Edges {
+			if resolve(e) == p {
+				hasP = true
+			} else if k, ok := resolve(e).(*ssa.Const); ok {
+				konst = k.String()
+			}
+		}
+		if hasP && konst != "" {
+			return "it is the parameter on some paths and the constant " + konst + " on others"
+		}
+	case *ssa.Call:
+		g := calleeOf(x)
+		if g == nil || !w.InModule(g) || g.Blocks == nil {
+			return ""
+		}
+		pi := -1
+		for i, a := range x.Call.Args {
+			if resolve(a) == p {
+				pi = i
+			}
+		}
+		if pi < 0 || pi >= len(g.Params) {
+			return ""
+		}
+		for _, ret := range returnsOf(g) {
+			if len(ret.Results) == 0 {
+				continue
+			}
+			rv := resolve(ret.Results[0])
+			if rv == ssa.Value(g.Params[pi]) {
+				continue
+			}
+			if isArithOn(rv, g.Params[pi]) || isArithOnDeep(rv, g.Params[pi], 0) {
+				return "it goes through " + w.FuncName(g) + ", which returns " + describeValue(rv) + " computed from its argument"
+			}
+		}
+	}
+	return ""
+}
+
+func isArithOnDeep(v ssa.Value, p ssa.Value, d int) bool {
+	if d > 4 {
+		return false
+	}
+	v = resolve(v)
+	if v == p {
+		return d > 0
+	}
+	switch x := v.(type) {
+	case *ssa.BinOp:
+		return isArithOnDeep(x.X, p, d+1) || isArithOnDeep(x.Y, p, d+1)
+	case *ssa.UnOp:
+		return x.Op == token.SUB && isArithOnDeep(x.X, p, d+1)
+	case *ssa.Call:
+		if g := calleeOf(x); g != nil && pkgOf(g) != nil && pkgOf(g).Path() == "math" {
+			for _, a := range x.Call.Args {
+				if isArithOnDeep(a, p, d+1) {
 					return true
 				}
 			}
